@@ -1,7 +1,7 @@
 import MindsVerif.Lemmas.Route
 /-! Name-resolution semantics: cutting the integration qualifier preserves what every column
-reference denotes (C11, T11.1) — for the cut as it is (`names = []`) and for the alias-aware cut of
-fixes/C11_2.diff (`names` = aliases and CTE names of the query). -/
+reference denotes (C11, T11.1) — for every `names`: `[]` (the cut before 1ea1207) and the alias-aware cut of
+the code since 1ea1207 / bd15793 (`names` = aliases, CTE names and own names of unaliased tables of the query). -/
 namespace MindsVerif.Route
 
 def cutT (db : Name) (names : List Name) (t : TRef) : TRef := { t with parts := cut db names true t.parts }
